@@ -103,6 +103,8 @@ pub fn solve_instance(input_data: serde_json::Value) -> serde_json::Value {
             .unwrap()
             .unwrap_transition();
 
+        #[cfg(feature = "rssched_verif")]
+        solver::verif::record_optimised(vehicle_type.0, &improved_transition);
         optimized_transitions.insert(vehicle_type, improved_transition);
     }
     let schedule_with_optimized_transitions =
